@@ -57,22 +57,22 @@ func (d *mdt) String() string {
 
 // menv is the evaluation environment.
 type menv struct {
-	strict     bool
-	root       any
-	cur        any
-	last       int
-	vars       map[string]any
-	hasVars    bool
-	useTZ      bool
-	zone       *time.Location
-	ignore     bool // structural errors are skipped (lax mode, or below .**)
-	orderOpen  bool // the evaluation iterated an object with >= 2 members
-	quirkD19   bool
-	usedD19    bool
-	quirkD17b  bool
-	usedD17b   bool
-	sawD9      bool
-	steps      int
+	strict    bool
+	root      any
+	cur       any
+	last      int
+	vars      map[string]any
+	hasVars   bool
+	useTZ     bool
+	zone      *time.Location
+	ignore    bool // structural errors are skipped (lax mode, or below .**)
+	orderOpen bool // the evaluation iterated an object with >= 2 members
+	quirkD19  bool
+	usedD19   bool
+	quirkD17b bool
+	usedD17b  bool
+	sawD9     bool
+	steps     int
 }
 
 func (e *menv) lax() bool { return !e.strict }
@@ -1371,7 +1371,9 @@ func looksDateTimeish(s string) bool {
 func (m *Model) castDT(v *mdt, want, meth, src string) (*mdt, *merr) {
 	e := m.env
 	notRec := suppErr("%s format is not recognized: %q", meth, src)
-	needTZ := func() *merr { return hardErr("cannot convert value from %s to %s without time zone usage", v.Kind, want) }
+	needTZ := func() *merr {
+		return hardErr("cannot convert value from %s to %s without time zone usage", v.Kind, want)
+	}
 	named := e.zone != time.UTC && e.zone.String() != ""
 	t := v.T
 	switch want {
